@@ -75,7 +75,7 @@ func main() {
 		fs.BoolVar(&r.dump, "dump", false, "keep SMT files and print failing obligations in detail")
 		fs.BoolVar(&r.update, "update-expect", false, "rewrite the .expect list from the discharged obligations")
 		fs.BoolVar(&r.verbose, "v", false, "verbose")
-		fs.IntVar(&r.quickT, "qt", 4, "first solver timeout (s)")
+		fs.IntVar(&r.quickT, "qt", 3, "first solver timeout (s)")
 		fs.IntVar(&r.slowT, "st", 30, "fallback solver timeout (s)")
 		_ = fs.Parse(os.Args[2:])
 		os.Exit(runCheck(r))
